@@ -33,7 +33,7 @@ Theorem C01_wire_format :
     init_cdb (op_value op) = Ok (sp_len sp) ->
     run_ctor ext op c init_cdb G pos kw = (G', Ok cm) ->
     exists ρ0 d r,
-      bind_args c pos kw = Ok ρ0 /\ cdb cm = Some r /\ G' = mkG (c_bits c) (sp_len sp) /\
+      bind_args c pos kw = Ok ρ0 /\ cdb cm = Some r /\ G' = G /\
       (all_ints d = true -> valid_dict (sp_len sp) (c_bits c) (ints d) = true ->
          length r = sp_len sp /\ bytes_ok r /\
          encode_dict (ints d) (c_bits c) (zeros (sp_len sp)) = Ok r /\
